@@ -92,8 +92,17 @@ def generate(config, tag, tier='quick'):
     flags = ['std'] if config == 'std' else [config]
     if tier == 'thorough':
         flags.append('all_tuples')
+    es, ex = None, None
+    if tag in ('C05', 'C13') and config == 'std':
+        import family
+        seed = int(os.environ.get('VERIF_SEED', '0') or 0)
+        try:
+            fp, defs, ftext = family.build(seed, tier, key)
+        except RuntimeError as e:
+            raise Undecided(str(e))
+        es, ex = {'family': fp}, {'family_defs': defs}
     try:
-        m = gen.generate(exp, templates(), rs, meta, flags)
+        m = gen.generate(exp, templates(), rs, meta, flags, es, ex)
     except LostAnchor as e:
         raise Undecided('lost anchor: %s' % e)
     except gen.TemplateError as e:
@@ -145,7 +154,7 @@ def run_verus(rs, modules, tag, rlimit=None):
     if rlimit:
         cmd += ['--rlimit', str(rlimit)]
     for m in modules or []:
-        cmd += ['--verify-module', m]
+        cmd += ['--verify-only-module', m]
     t0 = time.time()
     p = subprocess.run(cmd, cwd=os.path.dirname(rs), stdout=subprocess.PIPE, stderr=subprocess.PIPE, text=True)
     dt = time.time() - t0
